@@ -46,6 +46,10 @@ func c02Body(tag string, kind string, withIndex bool, action string) *Block {
 		b.Stmts = append(b.Stmts, &If{C: Bin("==", V("$"), N("2")), Then: &Next{}}, Pr(S(tag+"-after")))
 	case "exit-if":
 		b.Stmts = append(b.Stmts, &If{C: Bin("==", V("$"), N("3")), Then: &Exit{}}, Pr(S(tag+"-after")))
+	case "store":
+		// a store through $: visible to later rules of this pass, not to the pass of another selector or value
+		b.Stmts = append(b.Stmts, &If{C: &IsExpr{X: V("$"), T: "object"}, Then: Blk(asg(Mem(V("$"), "mark"), Bin("+", Mem(V("$"), "mark"), N("1")))),
+			Else: &If{C: Bin("&&", &IsExpr{X: V("$"), T: "array"}, Bin(">", Meth(V("$"), "length"), N("0"))), Then: Blk(asg(Idx(V("$"), N("0")), S("marked")))}}) // in range only: extending through one of two references is K-ALIAS
 	}
 	return b
 }
@@ -145,7 +149,7 @@ func c02Random(rng *rand.Rand) (*c02Config, string, bool) {
 		shape += fmt.Sprintf("f%d", nv)
 		cfg.files = append(cfg.files, InFile{Name: fmt.Sprintf("file%d.json", f+1), Data: data})
 	}
-	selPool := []Expr{V("$"), Mem(V("$"), "a"), Idx(V("$"), N("0")), Mem(Mem(V("$"), "a"), "b")}
+	selPool := []Expr{V("$"), V("$"), Mem(V("$"), "a"), Mem(V("$"), "a"), Idx(V("$"), N("0")), Mem(Mem(V("$"), "a"), "b")}
 	for s := 0; s < nsel; s++ {
 		cfg.selectors = append(cfg.selectors, selPool[rng.IntN(len(selPool))])
 	}
@@ -179,6 +183,10 @@ func c02Random(rng *rand.Rand) (*c02Config, string, bool) {
 		case 3:
 			if rng.IntN(4) == 0 {
 				action = "exit"
+			}
+		case 4, 5:
+			if k != "BEGIN" && k != "END" {
+				action = "store"
 			}
 		}
 		if k == "pattern" {
